@@ -43,7 +43,7 @@ ASSUMPTIONS = list(c19.ASSUMPTIONS) + [
 ]
 MANDATORY = ["read:variable-not-on-the-file's-first-dimension", "read:label", "read:position", "read:tol", "read:dataset", "read:absent->IndexError", "read:str-axis", "read:0d", "read:0d-with-an-index", "read:mask", "read:slice",
              "write:replace-variable", "write:label", "write:position", "write:ndarray", "write:dimarray", "write:reopen", "unlimited:append-scalar", "unlimited:append-slice",
-             "unlimited:append-list", "unlimited:second-variable", "multi:stack", "multi:concatenate", "multi:align", "multi:keys", "multi:concatenate-keys"]
+             "unlimited:append-list", "unlimited:second-variable", "unlimited:second-variable-int", "multi:stack", "multi:concatenate", "multi:align", "multi:keys", "multi:concatenate-keys"]
 
 
 def budget(tier):
@@ -167,7 +167,7 @@ def unlimited_case(draw):
         n += cnt
     late = draw(st.booleans())
     return {"mode": "unlimited", "lon": lon, "twod": twod, "kind": kind, "n0": n0, "labels": pool[:n + (1 if late else 0)], "appends": appends, "second": draw(st.booleans()) and not late,
-            "late_label": late,
+            "late_label": late, "second_int": draw(st.booleans()),
             "order": draw(st.sampled_from(["time-first", "lon-first"]))}
 
 
@@ -607,7 +607,11 @@ def run_unlimited(case, tmp):
         exp_vals = first.values.copy()
         exp_time = list(labs[:n0])
         if case["second"]:
-            w = da.DimArray(np.arange(n0, dtype=float) + 0.5, axes=[da.Axis(core.label_array(labs[:n0]), "time")])
+            # (an integer-typed second variable cannot hold NaN itself: its never-written records still read as NaN, in a float array)
+            w0 = (np.arange(n0, dtype=int) + 5) if case.get("second_int") else (np.arange(n0, dtype=float) + 0.5)
+            w = da.DimArray(w0.copy(), axes=[da.Axis(core.label_array(labs[:n0]), "time")])
+            if case.get("second_int"):
+                cl.add("unlimited:second-variable-int")
             lib(lambda: h.__setitem__("w", w), what="h['w'] = second variable on time", sig=sig)
             cl.add("unlimited:second-variable")
         for ai, ap in enumerate(case["appends"]):
@@ -632,7 +636,7 @@ def run_unlimited(case, tmp):
             check(got.values.shape == exp_vals.shape and np.array_equal(got.values, exp_vals), "unlimited-values", {"what": what, "got": core.jsonable(got.values), "expected": core.jsonable(exp_vals)}, sig)
             if case["second"]:
                 gw = lib(lambda: h["w"].read(), what=what + " [second variable]", sig=sig)
-                ew = np.concatenate([np.arange(n0, dtype=float) + 0.5, np.full(len(exp_time) - n0, np.nan)])
+                ew = np.concatenate([w0.astype(float), np.full(len(exp_time) - n0, np.nan)])
                 check(core.same_labels(gw.axes["time"].values, exp_time), "unlimited-axis-labels", {"what": what + " [second variable]", "got": core.jsonable(gw.axes["time"].values)}, sig)
                 check(gw.values.shape == ew.shape and all(core.same_scalar(x, y) for x, y in zip(gw.values.tolist(), ew.tolist())), "unlimited-second-variable",
                       {"what": what, "got": core.jsonable(gw.values), "expected": core.jsonable(ew)}, sig)
